@@ -328,6 +328,15 @@ example : nativeVerdict (run (fun _ => some true) exSem (nativeCfg [("SKIP", tru
 example : pytestDefaults (some "-ELLIPSIS,+skip".toList) = some [("ELLIPSIS", false), ("SKIP", true)] := by
   decide +kernel
 example : pytestDefaults (some "+nonsense".toList) = none := by decide +kernel
+/-- a doctest that fails before anything ran (compile-only error in the first executed part, malformed
+    directive, import error): pytest says failed (the error is re-raised), the native runner says failed -/
+example : pytestVerdict [] (run C10.earlySat C10.earlySem (pytestCfg [] true) () C10.pCompile) = .failed ∧
+    nativeVerdict (run C10.earlySat C10.earlySem (nativeCfg [] true) () C10.pCompile) = some .failed ∧
+    pytestVerdict [] (run C10.earlySat C10.earlySem (pytestCfg [] true) () C10.pDirective) = .failed ∧
+    nativeVerdict (run C10.earlySat C10.earlySem (nativeCfg [] true) () C10.pDirective) = some .failed ∧
+    pytestVerdict [] (run C10.earlySat C10.earlySem (pytestCfg [] false) () C10.pPlain) = .failed ∧
+    nativeVerdict (run C10.earlySat C10.earlySem (nativeCfg [] false) () C10.pPlain) = some .failed := by
+  decide +kernel
 end Examples
 
 end Xdoc.C15
